@@ -593,6 +593,12 @@ def prepare_dump(data: IOData, allow_changes: bool, filename: str) -> IOData:
                 "followed by fully virtual ones.",
                 filename,
             )
+        if nb > na:
+            raise PrepareDumpError(
+                "Cannot dump FCHK because it has more beta than alpha electrons, "
+                "which load_one rejects.",
+                filename,
+            )
     return prepare_segmented(data, True, allow_changes, filename, "FCHK")
 
 
